@@ -301,7 +301,7 @@ class Verdict:
         self.tier = tier
         self.level = level
         self.t0 = time.time()
-        self.findings = [f for f in load_findings() if f["property"] == prop and f.get("status") == "known"]
+        self.findings = [f for f in load_findings() if (f["property"] == prop or prop in f.get("also", [])) and f.get("status") == "known"]
         self.known_hits = {}
         self.violations = {}  # key -> (n, first case)
         self.cov = {"evaluations": 0, "distinct_nontrivial": 0, "rule": "", "samples": []}
